@@ -322,6 +322,7 @@ package transport
 //@   ghost mm = 0 - 1
 //@   at `f.maxMemory()` ghost mm = callres0
 //@   at! `io.ReadAll(part)` requires r.ContentLength >= 0 && r.ContentLength < mm
+//@   replay uploadMaxMemory.go.tmpl for io.ReadAll
 //@   replay httpContentType.go.tmpl for writeHeaders
 // C09: no body before the response headers (negotiated Content-Type, configured headers) are in place
 //@   callsite writeJson: requires calls(writeHeaders) >= 1
